@@ -14,6 +14,18 @@ Next == \/ Len(cs) < MaxCand /\ gs = <<>> /\ \E x \in CandSyms : cs' = Append(cs
         \/ Len(gs) < MaxGoal /\ cs # <<>> /\ \E x \in GoalSyms : gs' = Append(gs, x) /\ UNCHANGED cs
 Spec == Init /\ [][Next]_vars
 
+\* the repeated-variable universe (C04, first clause, on single patterns)
+NextRep == \/ Len(cs) < MaxCand /\ gs = <<>> /\ \E x \in RepCandSyms : cs' = Append(cs, x) /\ UNCHANGED gs
+           \/ Len(gs) < MaxGoal /\ cs # <<>> /\ \E x \in RepGoalSyms : gs' = Append(gs, x) /\ UNCHANGED cs
+SpecRep == Init /\ [][NextRep]_vars
+\* whatever the transcribed matcher accepts has a legal alignment in which every occurrence of a variable stands for
+\* code identical to the binding it reports
+SameVariable ==
+    (cs # <<>>) =>
+        LET T == CandTable(cs)  PT == GoalTable(gs) IN
+        \A s \in Strictness : LET m == Match(PT, T, s, 1) IN
+            m.ok => LegalB(PT, T, s, 1, 1, [single |-> m.env.single, multi |-> m.env.multi])
+
 \* one evaluation per state: tables and the five verdicts are computed once
 Verdicts(T, PT) == [s \in Strictness |-> Match(PT, T, s, 1).ok]
 
